@@ -485,6 +485,31 @@ example (inc : String → State → Except Err State) (st : State) :
     runFile inc "f1" st [.pragmaOnce, .rejected .unknownCommand] = .error .unknownCommand := by
   simp [runFile, foldLines, stepLine, fileStart, flush, applyMacros_nil]
 
+/-- **null_directive_is_boundary_and_empty_line** (wave 5).  The null directive (`#` alone on its line, C11 6.10.7) has no
+effect of its own: in every file, at every place, it is worth a directive without effect (a block boundary: the text in
+front of it is expanded on its own, like in front of `#pragma warning`) followed by an empty line -- same macro table,
+same `#pragma once` set, same output, same error. -/
+theorem null_directive_is_boundary_and_empty_line (inc : String → State → Except Err State) (cur : String) (st0 : State)
+    (pre post : List Line) :
+    runFile inc cur st0 (pre ++ .null :: post) = runFile inc cur st0 (pre ++ .pragmaWarning :: .text [] :: post) := by
+  have hstart : fileStart (pre ++ Line.null :: post) = fileStart (pre ++ Line.pragmaWarning :: Line.text [] :: post) := by
+    cases pre <;> rfl
+  unfold runFile
+  rw [hstart, RsslVerif.Lemmas.Include.foldLines_append, RsslVerif.Lemmas.Include.foldLines_append]
+  cases foldLines inc cur (st0, fileStart (pre ++ Line.pragmaWarning :: Line.text [] :: post)) pre with
+  | error e => rfl
+  | ok s =>
+    obtain ⟨st, active⟩ := s
+    simp only [foldLines, stepLine]
+    cases flush st active with
+    | error e => rfl
+    | ok st1 => simp
+
+/-- non-vacuity: a file that is a null directive only yields what a `#pragma warning` line and an empty line yield -/
+example (inc : String → State → Except Err State) (st : State) :
+    runFile inc "main" st [.null] = runFile inc "main" st [.pragmaWarning, .text []] :=
+  null_directive_is_boundary_and_empty_line inc "main" st [] []
+
 /-- non-vacuity: `A=1` then `B=2⏎` -/
 example : initialMacros [] [⟨[.id "A"], [.int "1"]⟩, ⟨[.id "B"], [.int "2", .endline]⟩] = .error .invalidDefine := by
   rfl
